@@ -18,7 +18,8 @@ def _request(rng):
     method = rng.choice([b"GET", b"POST", b"PUT", b"DELETE", b"HEAD", b"OPTIONS"])
     uri = b"/" + rng.bytes(rng.range(0, 12), TOK + b"/?=&%")
     nh = rng.range(0, 2)
-    hdrs = [(b"X-" + rng.bytes(rng.range(1, 6), TOK), rng.bytes(rng.range(0, 10), TOK + b" ;,=").strip(b" ")) for _ in range(nh)]
+    # distinct names (the check looks a header up by name)
+    hdrs = [(b"X-%d" % i + rng.bytes(rng.range(1, 6), TOK), rng.bytes(rng.range(0, 10), TOK + b" ;,=").strip(b" ")) for i in range(nh)]
     hs = b"".join(n + b": " + v + b"\r\n" for n, v in hdrs)
     kind = rng.choice(["nobody", "body", "body", "bufs", "chunked"])
     lines = []
